@@ -113,7 +113,7 @@ func (s *Sim) Procs() []ProcInfo {
 		en := true
 		switch p.kind {
 		case gRecv:
-			en = w.nextIndex(p.recv.topic, p.recv.name) >= 0
+			en = w.nextIndex(p.recv) >= 0
 		case gTimer:
 			en = !p.deadline.After(w.S.now)
 		}
@@ -401,6 +401,7 @@ func (s *Sim) Rewind(tok string, idx int) bool {
 		return false
 	}
 	s.W.cursors[role] = idx
+	s.W.rewinds[role]++
 	s.W.Mon.adversary(role)
 	return true
 }
